@@ -1,5 +1,46 @@
 //! Utilities for asynchronous operations, wakers, and future skeletons.
+#![allow(unexpected_cfgs)] // `excsn_fibre_verif` gates the verification seam H5 below
 
 // Re-export AtomicWaker from futures-util for internal crate use.
 // This is the recommended way to get a robust AtomicWaker.
+#[cfg(not(all(loom, excsn_fibre_verif)))]
 pub(crate) use futures_util::task::AtomicWaker;
+
+// Verification seam H5: futures-util's AtomicWaker synchronises through std atomics that loom
+// cannot see, so under `--cfg loom --cfg excsn_fibre_verif` it is replaced by a stand-in with the
+// same contract (register replaces the stored waker; wake takes and wakes it; both linearizable)
+// built on the crate-wide loom switch.
+#[cfg(all(loom, excsn_fibre_verif))]
+pub(crate) use self::verif_waker::AtomicWaker;
+#[cfg(all(loom, excsn_fibre_verif))]
+mod verif_waker {
+  use crate::internal::sync::Mutex;
+  use core::task::Waker;
+
+  #[derive(Debug)]
+  pub(crate) struct AtomicWaker {
+    slot: Mutex<Option<Waker>>,
+  }
+  impl AtomicWaker {
+    pub(crate) fn new() -> Self {
+      AtomicWaker { slot: Mutex::new(None) }
+    }
+    pub(crate) fn register(&self, waker: &Waker) {
+      let mut g = self.slot.lock();
+      match &*g {
+        Some(old) if old.will_wake(waker) => {}
+        _ => *g = Some(waker.clone()),
+      }
+    }
+    pub(crate) fn wake(&self) {
+      let w = self.slot.lock().take();
+      if let Some(w) = w {
+        w.wake();
+      }
+    }
+    #[allow(dead_code)]
+    pub(crate) fn take(&self) -> Option<Waker> {
+      self.slot.lock().take()
+    }
+  }
+}
